@@ -24,7 +24,7 @@ template class FEAT::Geometry::StandardRefinery<MeshPart<ConformalMesh<Shape::Si
 template<typename Shape_, int dim_>
 int c10_counts()
 {
-  return Shape::FaceTraits<Shape_, dim_>::count + Intern::StandardRefinementTraits<Shape_, dim_>::count;
+  return Shape::FaceTraits<Shape_, dim_>::count + FEAT::Geometry::Intern::StandardRefinementTraits<Shape_, dim_>::count;
 }
 int c10_all_counts()
 {
@@ -36,3 +36,16 @@ int c10_all_counts()
     + c10_counts<Shape::Simplex<2>, 0>() + c10_counts<Shape::Simplex<2>, 1>() + c10_counts<Shape::Simplex<2>, 2>()
     + c10_counts<Shape::Simplex<3>, 0>() + c10_counts<Shape::Simplex<3>, 1>() + c10_counts<Shape::Simplex<3>, 2>() + c10_counts<Shape::Simplex<3>, 3>();
 }
+
+// reference cell vertex coordinates (instantiation only)
+template<typename Shape_>
+int c10_ref_vertex(int v, int c)
+{
+  return Shape::ReferenceCell<Shape_>::template vertex<int>(v, c);
+}
+template int c10_ref_vertex<Shape::Hypercube<1>>(int, int);
+template int c10_ref_vertex<Shape::Hypercube<2>>(int, int);
+template int c10_ref_vertex<Shape::Hypercube<3>>(int, int);
+template int c10_ref_vertex<Shape::Simplex<1>>(int, int);
+template int c10_ref_vertex<Shape::Simplex<2>>(int, int);
+template int c10_ref_vertex<Shape::Simplex<3>>(int, int);
